@@ -58,7 +58,7 @@ def get_doc(tree: ast.Module):
 def walked_modules(run: Run) -> list[Mod]:
     """Modules the generator visits: under symplyphysics/, not under excluded or private directories."""
     out = []
-    for m in run.src.mods.values():
+    for m in run.src.by_rel.values():
         parts = m.rel.split("/")
         if parts[0] != PKG:
             continue
